@@ -497,10 +497,10 @@ Section Sound.
     (forall n, In n mix \/ In n unp -> reach frs (sel_spreads sels) n) /\
     (forall f sub n, In f fields -> n_sub f = Some sub -> In n (sel_spreads sub) -> reach frs (sel_spreads sels) n).
 
-  Lemma resolve'_sound : forall fuel sels root r,
-    resolve' fuel Sc frs sels root = Ok r -> rs_inv sels r.
+  Lemma resolve'_sound : forall fuel cond sels root r,
+    resolve' fuel Sc frs cond sels root = Ok r -> rs_inv sels r.
   Proof.
-    induction fuel as [|fuel IH]; intros sels root r H; [discriminate|].
+    induction fuel as [|fuel IH]; intros cond sels root r H; [discriminate|].
     cbn [resolve'] in H.
     eapply (fold_left_res_inv _ (rs_inv sels)); [| | | exact H].
     - intros m x. reflexivity.
@@ -514,12 +514,12 @@ Section Sound.
         destruct (lookup_type Sc root); [|discriminate].
         destruct (lookup_type Sc (fd_on f)) as [fd|]; [|discriminate].
         assert (Hn : reach frs (sel_spreads sels) n) by (apply reach_direct, Hin; left; reflexivity).
-        destruct (negb (unpack_fragment Sc (proj_frag f) (Some root))).
+        destruct (negb (cond || has_cond ds) && negb (unpack_fragment Sc (proj_frag f) (Some root))).
         * inversion E; subst; clear E. split; [|exact Hf].
           intros k [Hk|Hk]; [|apply Hm; right; exact Hk].
           apply in_app_or in Hk as [Hk|[<-|[]]]; [apply Hm; left; exact Hk | exact Hn].
         * destruct (String.eqb (fd_on f) root || (is_abstract fd && is_sub_type Sc (fd_on f) root)).
-          -- destruct (resolve' fuel Sc frs (fd_sel f) root) as [[[f2 m2] u2]|] eqn:Er; cbn [bind] in E; [|discriminate].
+          -- destruct (resolve' fuel Sc frs (cond || has_cond ds) (fd_sel f) root) as [[[f2 m2] u2]|] eqn:Er; cbn [bind] in E; [|discriminate].
              inversion E; subst; clear E. apply IH in Er. destruct Er as [Hm2 Hf2].
              assert (Hthru : forall k, reach frs (sel_spreads (fd_sel f)) k -> reach frs (sel_spreads sels) k)
                by (intros k Hk; eapply reach_through; eassumption).
@@ -531,7 +531,7 @@ Section Sound.
                 apply Hthru. eapply Hf2; eassumption.
           -- inversion E; subst. split; assumption.
       + destruct (inline_root_type Sc (match tc with Some tc0 => tc0 | None => root end) root) as [r0|].
-        * destruct (resolve' fuel Sc frs sub r0) as [[[f2 m2] u2]|] eqn:Er; cbn [bind] in E; [|discriminate].
+        * destruct (resolve' fuel Sc frs (cond || has_cond ds) sub r0) as [[[f2 m2] u2]|] eqn:Er; cbn [bind] in E; [|discriminate].
           inversion E; subst; clear E. apply IH in Er. destruct Er as [Hm2 Hf2].
           assert (Hsubi : forall k, reach frs (sel_spreads sub) k -> reach frs (sel_spreads sels) k).
           { intros k Hk. eapply reach_trans; [|exact Hk]. intros m Hmi. apply reach_direct, Hin. exact Hmi. }
@@ -572,7 +572,7 @@ Section Sound.
     set (sels := match sid with Some id => view (ps_ins st) id raw | None => raw end) in H.
     assert (Hsp : sel_spreads sels = sel_spreads raw)
       by (unfold sels; destruct sid; [apply sel_spreads_view | reflexivity]).
-    destruct (resolve' fuel Sc frs sels tn) as [[[fields0 mix] unp]|] eqn:Er; cbn [bind] in H; [|discriminate].
+    destruct (resolve' fuel Sc frs false sels tn) as [[[fields0 mix] unp]|] eqn:Er; cbn [bind] in H; [|discriminate].
     apply resolve'_sound in Er. destruct Er as [Hm Hf]. rewrite Hsp in Hm, Hf.
     match type of H with fold_left _ ?FS (Ok ?ST1) = _ => set (fields := FS) in H; set (st1 := ST1) in H end.
     assert (H01 : grows (fun n => reach frs (sel_spreads raw) n) st st1).
